@@ -9,8 +9,17 @@ is exercised).  After every load:
           same rules as stored; every rule of a subject s before every rule of a role s inherits from (same
           domain); rules of one subject in arrival order; for every request the decision is the effect of the
           first rule in stored order that matches with a definite effect, else deny.
+
+Two further families (same SPEC): (a) model TEXTS whose effect line is spelled unusually (blanks / tabs / line
+continuation / comment around the pieces of "subjectPriority(p.eft) || deny"): a spelling the library refuses is
+fine (nothing is decided), a spelling it accepts is a subject-priority model and is judged like the canonical one;
+(b) an enforcer whose MODEL IS REPLACED: it starts its life on an allow-override / deny-override / allow-and-deny
+model of the same shape (policy loaded, requests decided) and is switched to the subject-priority model with
+set_model() or by load_model() of the rewritten model file, then set_adapter() and the rounds as above.
 """
 import itertools
+import os
+import tempfile
 
 import casbin
 from casbin import persist
@@ -43,6 +52,44 @@ e = subjectPriority(p.eft) || deny
 [matchers]
 m = g(r.sub, p.sub, r.dom) && r.dom == p.dom && r.obj == p.obj && r.act == p.act
 """
+
+
+EFFECT_CANON = "e = subjectPriority(p.eft) || deny"
+# the effect texts an enforcer may have lived on before its model is replaced (case["start"]["effect"] indexes this)
+START_EFFECTS = ["some(where (p.eft == allow))", "!some(where (p.eft == deny))",
+                 "some(where (p.eft == allow)) && !some(where (p.eft == deny))"]
+# unusual spellings of the effect line (the text after the key "e"): the canonical pieces with blanks, tabs, a line
+# continuation or a trailing comment between them.  Which of them the library accepts is the library's business.
+SPELLINGS = [" = subjectPriority(p.eft)  ||  deny", " = subjectPriority(p.eft)\t||\tdeny", " = subjectPriority(p.eft) ||  deny",
+             " = subjectPriority(p.eft)  || deny", " = subjectPriority(p.eft)\t|| deny", " = subjectPriority(p.eft)||deny",
+             " = subjectPriority(p.eft) ||deny", " = subjectPriority( p.eft ) || deny", " = subjectPriority (p.eft) || deny",
+             " =   subjectPriority(p.eft) || deny   ", "=subjectPriority(p.eft) || deny", "\t=\tsubjectPriority(p.eft) || deny\t",
+             " = subjectPriority(p_eft) || deny", " = subjectPriority(p_eft)  ||  deny", " = subjectPriority(p.eft) || deny # most specific subject wins",
+             " = subjectPriority(p.eft) || \\\n    deny", " = subjectPriority(p.eft) \\\n || deny", " = subjectPriority(p.eft) ||\\\ndeny",
+             " = subjectPriority(p.eft) || deny \t "]
+BLANKS = ["", " ", "  ", "\t", " \t"]
+
+
+def gen_spelling(rng):
+    """the pieces of the canonical effect line joined by random runs of blanks / tabs"""
+    b = lambda: rng.choice(BLANKS + ["", " ", " "])      # noqa: E731
+    return (rng.choice([" ", "", "\t", "  "]) + "=" + b() + "subjectPriority" + rng.choice(["", "", "", " "]) + "(" +
+            rng.choice(["", "", " "]) + "p" + rng.choice([".", ".", "_"]) + "eft" + rng.choice(["", "", " "]) + ")" + b() + "||" + b() +
+            "deny" + rng.choice(["", "", " ", "\t", "  # comment"]))
+
+
+def model_text(case, effect=None):
+    """model text of a case; `effect` (a right-hand side) replaces the subject-priority effect (the model an enforcer
+    lived on before the switch)"""
+    text = MODEL_DOM if case["dom"] else MODEL_PLAIN
+    if case.get("subcol", "sub") != "sub":
+        # the subject is the FIRST policy column whatever it is called
+        text = text.replace("p = sub,", "p = %s," % case["subcol"]).replace("p.sub", "p." + case["subcol"])
+    if effect is not None:
+        return text.replace(EFFECT_CANON, "e = " + effect)
+    if case.get("effect_line") is not None:
+        text = text.replace(EFFECT_CANON, "e" + case["effect_line"])
+    return text
 
 
 class MemAdapter(persist.Adapter):
@@ -172,16 +219,75 @@ def exhaustive_cases():
             yield dict(dom=False, rounds=[edits])
 
 
+def switched_enforcer(case, text, start):
+    """an enforcer that has lived on ANOTHER model of the same shape (effect START_EFFECTS[start['effect']], the rules
+    start['prior'] loaded, every request over them decided once) and is then switched to the model `text`:
+    'set_model' = set_model(new Model object); 'load_model' = the model file it was built from is rewritten and
+    load_model() re-reads it"""
+    dom = case["dom"]
+    first = model_text(case, effect=START_EFFECTS[start["effect"]])
+    prior = MemAdapter([", ".join(l) for l in start.get("prior", [])])
+
+    def live(e):
+        for l in start.get("prior", []):
+            if l[0] == "p":
+                e.enforce(*l[1:-1])
+
+    if start["switch"] == "set_model":
+        e = casbin.Enforcer(casbin.Enforcer.new_model(text=first), prior)
+        live(e)
+        e.set_model(casbin.Enforcer.new_model(text=text))
+        return e
+    d = tempfile.mkdtemp(prefix="c07s_")
+    path = os.path.join(d, "model.conf")
+    try:
+        with open(path, "w") as f:
+            f.write(first)
+        e = casbin.Enforcer(path, prior)
+        live(e)
+        with open(path, "w") as f:
+            f.write(text)
+        e.load_model()
+        return e
+    finally:
+        try:
+            os.unlink(path)
+            os.rmdir(d)
+        except OSError:
+            pass
+
+
+def gen_start(rng, dom):
+    """the earlier life of an enforcer whose model is replaced: effect, how the switch is made, rules it had loaded"""
+    prior = []
+    for _ in range(rng.randint(0, 4)):
+        if rng.random() < 0.6:
+            prior.append(["p", rng.choice(NAMES), rng.choice(OBJS)] + ([rng.choice(DOMS)] if dom else []) + ["read", rng.choice(["allow", "deny"])])
+        else:
+            i, j = sorted(rng.sample(range(len(NAMES)), 2))
+            prior.append(["g", NAMES[i], NAMES[j]] + ([rng.choice(DOMS)] if dom else []))
+    return dict(effect=rng.randrange(len(START_EFFECTS)), switch=rng.choice(["set_model", "set_model", "load_model"]), prior=prior)
+
+
 def run_impl(case):
     """returns list of per-load observations: dict(stored_g, stored_p, err|policy, hmap, decisions)"""
     dom = case["dom"]
     ad = MemAdapter([])
-    text = MODEL_DOM if dom else MODEL_PLAIN
-    if case.get("subcol", "sub") != "sub":
-        # the subject is the FIRST policy column whatever it is called
-        text = text.replace("p = sub,", "p = %s," % case["subcol"]).replace("p.sub", "p." + case["subcol"])
-    m = casbin.Enforcer.new_model(text=text)
-    e = casbin.Enforcer(m, ad)
+    text = model_text(case)
+    start = case.get("start")
+    if start:
+        e = switched_enforcer(case, text, start)
+        e.set_adapter(ad)
+    elif case.get("effect_line") is not None:
+        try:
+            m = casbin.Enforcer.new_model(text=text)
+            e = casbin.Enforcer(m, ad)
+        except Exception as ex:  # noqa
+            # the library refuses this spelling of the model: nothing is decided, nothing to judge
+            return [dict(refused=type(ex).__name__ + ":" + str(ex)[:60])]
+    else:
+        m = casbin.Enforcer.new_model(text=text)
+        e = casbin.Enforcer(m, ad)
     e.enable_auto_save(False)
     obs = []
     for edits in case["rounds"]:
@@ -343,7 +449,28 @@ def run(chk, oracle, n_random, exhaustive=True, seed_cases=()):
         cases.append(gen_case(chk.rng, dom=(i % 2 == 1)))
     if n_random:
         cases += list(deep_chain_cases(chk.rng, max(4, n_random // 60)))
+    n_spelled = n_replaced = 0
+    if n_random:
+        # (a) unusual spellings of the effect line: every listed one on both model shapes, plus random ones
+        for i, sp in enumerate(SPELLINGS + [gen_spelling(chk.rng) for _ in range(max(10, n_random // 12))]):
+            for dom in (False, True):
+                cases.append(dict(gen_case(chk.rng, dom=dom), effect_line=sp))
+                n_spelled += 1
+        # (b) the enforcer lived on another model before (set_model / load_model of the rewritten file)
+        for i in range(max(40, n_random // 4)):
+            c = gen_case(chk.rng, dom=(i % 2 == 1))
+            cases.append(dict(c, start=gen_start(chk.rng, c["dom"])))
+            n_replaced += 1
     all_obs = [run_impl(c) for c in cases]
+    refused = accepted = 0
+    for ci, c in enumerate(cases):
+        if c.get("effect_line") is not None:
+            if all_obs[ci] and "refused" in all_obs[ci][0]:
+                refused += 1
+                chk.count(None)
+                all_obs[ci] = []
+            else:
+                accepted += 1
     reqs, index = [], []
     for ci, (c, obs) in enumerate(zip(cases, all_obs)):
         rq = model_requests(c, obs)
@@ -354,12 +481,15 @@ def run(chk, oracle, n_random, exhaustive=True, seed_cases=()):
     reported = 0
     for ci, k, ri in index:
         c, o = cases[ci], all_obs[ci][k]
-        key = ("subject", c["dom"], repr(o["stored_g"]), repr(o["stored_p"]))
+        key = ("subject", c["dom"], repr(o["stored_g"]), repr(o["stored_p"])) + \
+              ((c["effect_line"],) if c.get("effect_line") is not None else ()) + \
+              ((repr(c["start"]),) if c.get("start") else ())
         chk.count(key if o["stored_g"] and o["stored_p"] else None)
         if ci % max(1, len(cases) // 3) == 0 and k == 0:
             chk.sample(dict(stratum="subject-priority", domain_model=c["dom"], rounds=c["rounds"][:2],
-                            loaded=o.get("policy", o.get("err"))), cap=8)
-        small = dict(dom=c["dom"], rounds=c["rounds"][:k + 1])
+                            loaded=o.get("policy", o.get("err")),
+                            **{kk: c[kk] for kk in ("effect_line", "start") if c.get(kk) is not None}), cap=8)
+        small = dict(c, rounds=c["rounds"][:k + 1])
         v = spec_violation(c, o)
         if v:
             if reported < 3:
@@ -380,6 +510,12 @@ def run(chk, oracle, n_random, exhaustive=True, seed_cases=()):
                              str(reps[ri]), where="subject-priority load: " + d[:300])
     chk.extra.setdefault("strata", {})["subject_priority_loads"] = len(index)
     chk.extra["strata"]["subject_priority_exhaustive_graphs_on_3_names"] = 512 if exhaustive else 0
+    if n_spelled or n_replaced:
+        st = chk.extra["strata"]
+        st["subject_priority_effect_line_spellings"] = st.get("subject_priority_effect_line_spellings", 0) + n_spelled
+        st["subject_priority_spellings_accepted_by_the_library"] = st.get("subject_priority_spellings_accepted_by_the_library", 0) + accepted
+        st["subject_priority_spellings_refused_by_the_library"] = st.get("subject_priority_spellings_refused_by_the_library", 0) + refused
+        st["subject_priority_model_replaced"] = st.get("subject_priority_model_replaced", 0) + n_replaced
     return cases
 
 
@@ -391,7 +527,7 @@ def shrink_case(case, fails):
         changed = False
         for ri in range(len(cur["rounds"])):
             for ei in range(len(cur["rounds"][ri])):
-                cand = dict(dom=cur["dom"], rounds=[list(r) for r in cur["rounds"]])
+                cand = dict(cur, rounds=[list(r) for r in cur["rounds"]])
                 del cand["rounds"][ri][ei]
                 try:
                     if fails(cand):
